@@ -10,7 +10,8 @@ C01 driver. One case = one history:
 * events: `,`-separated `<replica><code>`: a apply, b Snapshot(), p Persist(), s = b+p, i<src> install,
   d shutdown, k kill, r restart, o offline read
 * one obs per event (an `s` event has ONE obs, after the Persist): `res~applied~view~calls`,
-  res ok|noop|err|crash, view D|E|<pinset>, calls `-` or `T<pin>`/`U<pin>` joined by `+`.
+  res ok|noop|err|crash, view D|E|<pinset>, calls `-` or `T<pin>`/`U<pin>` joined by `+`;
+  a replay observation of the real-Raft harness has a fifth field: the number of entries its snapshot covered.
 -/
 namespace CV.C01
 open CV CV.Parse CV.PinParse
@@ -29,6 +30,8 @@ def parseOps (s : String) : Option (List Op) :=
 inductive Tok where
   | evs (l : List Ev)
   | upTo (pre : List Ev) (c : Nat)
+  | burst (c : Nat)     -- FSM harness: entries applied back to back up to `c`, tracker calls in arrival order
+  | snapIfNew           -- real Raft: Snapshot() is only attempted when something was applied since the last one
 
 def parseEvent (s : String) : Option (Nat × Tok) := do
   let r ← (s.take 1).toString.toNat?
@@ -44,6 +47,8 @@ def parseEvent (s : String) : Option (Nat × Tok) := do
   else if rest.startsWith "i" then do pure (r, .evs [.install (← (rest.drop 1).toString.toNat?)])
   else if rest.startsWith "R" then do pure (r, .upTo [.restart] (← (rest.drop 1).toString.toNat?))
   else if rest.startsWith "A" then do pure (r, .upTo [] (← (rest.drop 1).toString.toNat?))
+  else if rest.startsWith "B" || rest.startsWith "S" then do pure (r, .burst (← (rest.drop 1).toString.toNat?))
+  else if rest == "n" then pure (r, .snapIfNew)
   else if rest.startsWith "I" then
     match (rest.drop 1).toString.splitOn ":" with
     | [a, b] => do pure (r, .upTo [.restart, .install (← a.toNat?)] (← b.toNat?))
@@ -73,10 +78,13 @@ structure RawObs where
   applied : Nat
   view : View
   calls : List Call
+  first : Option Nat := none   -- a replay: entries first..applied-1 were re-applied back to back, calls in arrival order
 
 def parseObs (s : String) : Option RawObs :=
   match s.splitOn "~" with
   | [r, a, v, c] => do pure { res := ← parseRes r, applied := ← a.toNat?, view := ← parseView v, calls := ← parseCalls c }
+  | [r, a, v, c, f] => do pure { res := ← parseRes r, applied := ← a.toNat?, view := ← parseView v, calls := ← parseCalls c,
+                                 first := some (← f.toNat?) }
   | _ => none
 
 def canonCall : Call → Call
@@ -139,7 +147,9 @@ def showRes : Res → String
 def oneEvent (ops : List Op) (a : Acc) (i : Nat) (tok : Tok) (o : RawObs) (k : Nat) : Acc :=
   -- run the model events of this token; the observation belongs to the last one
   let pre := a.sys
-  let composite := match tok with | .upTo .. => true | _ => false
+  let composite := match tok with | .upTo .. => true | .burst _ => true | _ => false
+  let isBurst := match tok with | .burst _ => true | .upTo [] _ => true | _ => false
+  let preApplied := ((a.sys[i]?).map (·.applied)).getD 0
   let evs : List Ev := match tok with
     | .evs l => l
     | .upTo preEvs c =>
@@ -147,6 +157,11 @@ def oneEvent (ops : List Op) (a : Acc) (i : Nat) (tok : Tok) (o : RawObs) (k : N
       let s1 := preEvs.foldl (fun s e => (step ops s i e).1) a.sys
       let ap := ((s1[i]?).map (·.applied)).getD 0
       preEvs ++ List.replicate (c - ap) .apply
+    | .burst c => List.replicate (c - preApplied) .apply
+    | .snapIfNew =>
+      match a.sys[i]? with
+      | some r => if r.up && r.applied == r.offlineIdx then [] else [.snapBegin, .snapPersist]
+      | none => []
   let (sys', out, sh', beyond, lastEv) := evs.foldl
     (fun (st : Sys × StepOut × List Shadow × Bool × Ev) e =>
       let (s, prev, sh, b, _) := st
@@ -169,7 +184,13 @@ def oneEvent (ops : List Op) (a : Acc) (i : Nat) (tok : Tok) (o : RawObs) (k : N
                (if composite then (out.calls.map canonCall).isPerm (o.calls.map canonCall)
                 else out.calls.map canonCall == o.calls.map canonCall)
   -- for the Spec a composite is one non-acknowledging observation (its tracker calls are compared with the model's above)
-  let obs : Obs := if composite
+  let obs : Obs := if isBurst
+    then { rep := i, ev := .restart, res := o.res, applied := o.applied, view := o.view, calls := o.calls,
+           burst := true, first := preApplied }
+    else if composite && o.first.isSome
+    then { rep := i, ev := .restart, res := o.res, applied := o.applied, view := o.view, calls := o.calls,
+           burst := true, first := o.first.getD 0 }
+    else if composite
     then { rep := i, ev := .restart, res := o.res, applied := o.applied, view := o.view, calls := [] }
     else { rep := i, ev := lastEv, res := o.res, applied := o.applied, view := o.view, calls := o.calls }
   let win := match sh'[i]? with | some x => decide (x.hi > r'.applied) | none => false
@@ -186,6 +207,7 @@ def oneEvent (ops : List Op) (a : Acc) (i : Nat) (tok : Tok) (o : RawObs) (k : N
     | .offline => addFeat feats "offline"
     | _ => feats
   let feats := match tok with
+    | .burst _ => if ea > preApplied + 1 then addFeat feats "burst" else feats
     | .upTo [] _ => addFeat feats "follower-catch-up"
     | .upTo [.restart] _ => addFeat feats "restart-replay"
     | .upTo _ _ => if ((pre[i]?).map (fun r => !(r.offlineView).isEmpty)).getD false
@@ -200,7 +222,7 @@ def oneEvent (ops : List Op) (a : Acc) (i : Nat) (tok : Tok) (o : RawObs) (k : N
                 (match ev with | .down => "~D" | .error => "~E" | .pins m => "~size" ++ toString m.length) ++
                 "~calls" ++ toString out.calls.length),
     firstDiffAt := (match a.firstDiff with | some _ => a.firstDiffAt | none => k),
-    undecAt := (out.res == .err && lastEv == .apply || out.res == .crash) :: a.undecAt,
+    undecAt := (out.res == .err && lastEv == .apply || out.res == .crash || (obs.burst && !trackerOrderOk ops obs)) :: a.undecAt,
     beyond := beyond, nApply := a.nApply + (if lastEv == .apply && out.res == .ok then 1 else 0), feats := feats }
 
 def runCase (ops : List Op) (n : Nat) (evs : List (Nat × Tok)) (obs : List RawObs) : Acc :=
@@ -235,6 +257,7 @@ def answer (ws : List String) : String :=
           let window := !bad.isEmpty && bad.all (·.2)
           "propfail " ++ ",".intercalate (failed.map (·.1)) ++ " " ++ arm ++
             " window=" ++ (if window then "1" else "0") ++ " origins=" ++ (if orig then "1" else "0") ++
+            " order=" ++ (if tr.all (trackerOrderOk ops) then "1" else "0") ++
             -- does the implementation behave exactly as the model (which includes the recorded defects) predicts?
             " agree=" ++ (if a.firstDiff.isNone then "1" else "0")
         let failedPre := (clauses ops (trace.take cut)).filter (fun c => !c.2)
